@@ -484,6 +484,64 @@ func propC17(a *Analysis, r *Registry) {
 			b.EqUnder(rB, name+"/negative/Max'", b.pos(fn), fcNOK, fcNOK.FieldAtExit(0, "Max"), eN, "-pow(s.spacingAtLevel(level, true)#2, s.spacingAtLevel(level, true)#0)")
 		})
 	}
+	// the domain is put in order exactly when it is reversed, and a degenerate domain is widened
+	// on both sides (Nice): decisions the value formulas above do not see, because they are
+	// stated on whatever domain reaches the ticker
+	for _, fname := range []string{"scale.(Linear).Ticks", "scale.(*Linear).Nice"} {
+		fname := fname
+		fn := b.Fn("C-decision", fname)
+		if fn == nil {
+			continue
+		}
+		b.guard("C-decision", fname+"/domain-order", func() {
+			fc := X.FCFor(fn)
+			p0 := X.ParamRF(fn, 0)
+			minO, maxO := S.MakeFn("fld:Linear.Min", p0), S.MakeFn("fld:Linear.Max", p0)
+			reversed := S.Cmp("<", maxO, minO)
+			degenerate := S.Cmp("==", maxO, minO)
+			nSwap, nWiden := 0, 0
+			fc.Ctx.Instrs(func(in ssa.Instruction) {
+				st, ok := in.(*ssa.Store)
+				if !ok {
+					return
+				}
+				at := fc.Val(st.Addr).SingleAtom()
+				if at == nil || (at.Name != "&fld:Linear.0" && at.Name != "&fld:Linear.1") {
+					return
+				}
+				isMin := at.Name == "&fld:Linear.0"
+				v := fc.Val(st.Val)
+				where := a.W.InstrPos(st)
+				switch {
+				case (isMin && v.Equal(maxO)) || (!isMin && v.Equal(minO)):
+					nSwap++
+					if fc.HoldsAt(st.Block(), reversed) {
+						r.OK("C-decision", fname+"/domain-order/swap#"+itoa(nSwap), where, "the ends are exchanged only when Max < Min")
+					} else {
+						r.Fail("C-decision", fname+"/domain-order/swap#"+itoa(nSwap), where, "the ends of the domain are exchanged without Max < Min being known: an ordered domain is reversed")
+					}
+				case fc.HoldsAt(st.Block(), degenerate):
+					nWiden++
+					d := v.Sub(minO)
+					if !isMin {
+						d = v.Sub(maxO)
+					}
+					c, isC := d.IsConst()
+					if isC && ((isMin && c.Sign() < 0) || (!isMin && c.Sign() > 0)) {
+						r.OK("C-decision", fname+"/degenerate/"+map[bool]string{true: "Min", false: "Max"}[isMin], where, "a one-point domain is widened outward by a constant")
+					} else {
+						r.Fail("C-decision", fname+"/degenerate/"+map[bool]string{true: "Min", false: "Max"}[isMin], where, "a one-point domain is not widened outward: "+clip(v.String(), 120))
+					}
+				}
+			})
+			if nSwap != 0 && nSwap != 2 {
+				r.Fail("C-decision", fname+"/domain-order", b.pos(fn), "expected both ends exchanged for a reversed domain, found "+itoa(nSwap)+" store(s)")
+			}
+			if nSwap == 0 && nWiden == 0 {
+				r.OK("C-decision", fname+"/domain-order", b.pos(fn), "the domain is used as given")
+			}
+		})
+	}
 	// FindLevel
 	if fn := b.Fn(rB, "scale.(*TickOptions).FindLevel"); fn != nil {
 		name := "scale.(*TickOptions).FindLevel"
